@@ -105,7 +105,7 @@ def safe_name(s):
     return re.sub(r"[^A-Za-z0-9_.-]+", "_", s)[:120]
 
 
-def finish(ctx, level_text, explanation, assumptions, trusted_base, cmd):
+def finish(ctx, level_text, explanation, assumptions, trusted_base, cmd, exhaustive=False):
     """Classify findings against KNOWN_FINDINGS, print the verdict lines, write evidence. -> exit code."""
     known, fixed = load_known()
     kn = known.get(ctx.prop, {})
@@ -173,7 +173,7 @@ def finish(ctx, level_text, explanation, assumptions, trusted_base, cmd):
                     "distinct (rule, construct) pairs on which a rule had something to check (constructs are keyed by "
                     "class.method and role, not by line)",
             "samples": ctx.samples[:40] or [{"note": "no instance"}],
-            "exhaustive": True,
+            "exhaustive": bool(exhaustive),
             "checker_cmd": cmd,
             "trusted_base": trusted_base,
             "rules": rules_out,
